@@ -1602,24 +1602,105 @@ theorem gen_detector_uses_eq_ref :
 
 /-- **`FileInfo.ExportOptions`**: every attribute the file carries overrides the session's option,
     unconditionally (C02-m8 made this depend on the format and lost TSV); the session's terminal colours never
-    reach a table file (F102: `--color --pretty-print` wrote escape sequences into committed JSON files). -/
+    reach a table file (F102: `--color --pretty-print` wrote escape sequences into committed JSON files); the one
+    conditional statement withholds delimiter positions that were DETECTED on loading (F112), after the mapping. -/
 theorem gen_export_options_eq_ref :
     exportOptionsMap =
-  [("Format", "Format"), ("Delimiter", "Delimiter"), ("DelimiterPositions", "DelimiterPositions"), ("SingleLine", "SingleLine"), ("Encoding", "Encoding"), ("LineBreak", "LineBreak"), ("WithoutHeader", "NoHeader"), ("EncloseAll", "EncloseAll"), ("JsonEscape", "JsonEscape"), ("PrettyPrint", "PrettyPrint"), ("Color", "const false")] :=
-  rfl
+  [("Format", "Format"), ("Delimiter", "Delimiter"), ("DelimiterPositions", "DelimiterPositions"), ("SingleLine", "SingleLine"), ("Encoding", "Encoding"), ("LineBreak", "LineBreak"), ("WithoutHeader", "NoHeader"), ("EncloseAll", "EncloseAll"), ("JsonEscape", "JsonEscape"), ("PrettyPrint", "PrettyPrint"), ("Color", "const false")] ∧
+    exportOptionsOverrides = [("DelimiterPositions", "f.positionsDetected", "nil")] :=
+  ⟨rfl, rfl⟩
 
 /-- **the loaders' stores into `FileInfo`**: the encoding is refined by `DetectInSpecifiedEncoding` for
     EVERY named encoding (C02-m10 skipped the refinement for UTF16), the line break and the enclosure are
     what the reader detected AFTER the records have been read (C02-m4 stored the line break before, when a
-    header-less file has shown none yet), JSON files are UTF-8 with the detected escape type and line break. -/
+    header-less file has shown none yet), JSON files are UTF-8 with the detected escape type and line break; the
+    fixed-length loader marks positions it detected itself (F112, see `detected_positions_never_reach_the_writer`). -/
 theorem gen_loader_stores_eq_ref :
     loaderStores =
   [("loadViewFromCSVFile", [("Delimiter", "'\\t'", "fileInfo.Format == option.TSV", "before the records are read"), ("Encoding", "enc := text.DetectInSpecifiedEncoding(fileHead, fileInfo.Encoding)", "", "before the records are read"), ("LineBreak", "reader.DetectedLineBreak", "reader.DetectedLineBreak != \"\"", "after the records are read"), ("EncloseAll", "reader.EnclosedAll", "", "after the records are read")]),
-   ("loadViewFromFixedLengthTextFile", [("Encoding", "enc := text.DetectInSpecifiedEncoding(fileHead, fileInfo.Encoding)", "", "before the records are read"), ("LineBreak", "reader.DetectedLineBreak", "reader.DetectedLineBreak != \"\"", "after the records are read")]),
+   ("loadViewFromFixedLengthTextFile", [("Encoding", "enc := text.DetectInSpecifiedEncoding(fileHead, fileInfo.Encoding)", "", "before the records are read"), ("positionsDetected", "true", "fileInfo.DelimiterPositions == nil", "before the records are read"), ("LineBreak", "reader.DetectedLineBreak", "reader.DetectedLineBreak != \"\"", "after the records are read")]),
    ("loadViewFromLTSVFile", [("Encoding", "enc := text.DetectInSpecifiedEncoding(fileHead, fileInfo.Encoding)", "", "before the records are read"), ("LineBreak", "reader.DetectedLineBreak", "reader.DetectedLineBreak != \"\"", "after the records are read")]),
    ("loadViewFromJsonFile", [("LineBreak", "lb := lineBreakDetector.LineBreak()", "lb := lineBreakDetector.LineBreak(); lb != \"\"", "after the records are read"), ("Encoding", "text.UTF8", "", "after the records are read"), ("JsonEscape", "escapeType := json.LoadTable(fileInfo.JsonQuery, string(jsonText))", "", "after the records are read")]),
    ("loadViewFromJsonLinesFile", [("LineBreak", "lb := lineBreakDetector.LineBreak()", "lb := lineBreakDetector.LineBreak(); lb != \"\"", "after the records are read"), ("Encoding", "text.UTF8", "", "after the records are read"), ("JsonEscape", "escapeType := txjson.Backslash", "", "after the records are read")])] :=
   rfl
+
+/-- **Automatic delimiter positions are detected on the WHOLE file** (`loadViewFromFixedLengthTextFile`, regenerated):
+    whatever the file is, `fixedlen.NewDelimiter` is handed all of its bytes — not the `loaderHeadLen` = 2048 bytes
+    kept for the detection of the encoding (C02-m18 ran the detection on that head: a column that is blank
+    throughout the first 2 KiB was not found) — and so is `fixedlen.NewReader`, in both branches, from the first byte
+    (a reader that has been read to its end is rewound).  The detector is told about the header line and the
+    encoding, and what it finds is stored as the table's positions.  This is what `Csvq.Drive.C02.decFixedAuto`
+    (op c02.deca: `Fixed.delimit` over the whole text, then `Fixed.decodeFixed` over the whole text) assumes. -/
+theorem auto_positions_use_whole_file (file : List Nat) :
+    fixedAutoDetectorInput.bytes loaderHeadLen file = file ∧
+    (∀ e ∈ fixedReaderInputs, readerBytes loaderHeadLen file e = file) ∧
+    fixedReaderInputs.map (·.1) = [fixedAutoGuard, "!(" ++ fixedAutoGuard ++ ")"] ∧
+    fixedAutoGuard = "fileInfo.DelimiterPositions == nil" ∧
+    fixedAutoDetectorSettings = ["d.NoHeader = fileInfo.NoHeader", "d.Encoding = fileInfo.Encoding"] ∧
+    fixedAutoPositionsStore = "fileInfo.DelimiterPositions, err = d.Delimit()" := by
+  refine ⟨LoaderSrc.bytes_of_whole _ _ _ (by decide), ?_, by decide, by decide, by decide, by decide⟩
+  intro e he
+  have hw : ∀ e ∈ fixedReaderInputs, e.2.2 = false ∧ e.2.1.whole = true := by decide
+  obtain ⟨h1, h2⟩ := hw e he
+  simp [readerBytes, h1, LoaderSrc.bytes_of_whole _ _ _ h2]
+
+/-- the statement is not empty: the head of the file is a different source -/
+theorem auto_positions_head_is_not_the_file : ∃ file : List Nat, LoaderSrc.head.bytes loaderHeadLen file ≠ file :=
+  LoaderSrc.head_loses loaderHeadLen
+
+/-- the two attributes of a `FileInfo` this is about: the delimiter positions, and whether they were detected on loading -/
+structure PosState where
+  positions : Option (List Nat)
+  detected : Bool
+
+/-- what a store of `fileInfoPositionStores` does: the positions become `v`; the flag is what the statement next to
+    the store says, and stays as it is when there is none -/
+def applyPositionStore (e : String × String × String) (v : Option (List Nat)) (s : PosState) : PosState :=
+  { positions := v,
+    detected := if e.2.2 = "fileInfo.positionsDetected = true" ∨ e.2.2 = "f.positionsDetected = true" then true
+                else if e.2.2 = "fileInfo.positionsDetected = false" ∨ e.2.2 = "f.positionsDetected = false" then false
+                else s.detected }
+
+/-- `FileInfo.ExportOptions` on the two attributes, read off the regenerated mapping and overrides: the positions the
+    WRITER is handed (`none` = it measures the table) -/
+def writerPositions (s : PosState) : Option (List Nat) :=
+  if ("DelimiterPositions", "DelimiterPositions") ∈ exportOptionsMap then
+    if ("DelimiterPositions", "f.positionsDetected", "nil") ∈ exportOptionsOverrides ∧ s.detected = true then none
+    else s.positions
+  else none
+
+/-- **Detected positions never reach the writer** (F112: a fixed-length file read with AUTOMATIC positions got the
+    detected positions as its explicit ones — UPDATE + COMMIT rewrote it without the blank between the columns, so
+    that it no longer read back with automatic positions, and refused a value longer than the detected column).
+    Over the regenerated facts: the loader's store of what `Delimit` found — in the branch of the detection, next
+    to it the mark — makes the writer measure again, whatever the positions and whatever the state before; positions
+    the user gives (`SetDelimiterPositions`) clear the mark and are what the writer gets; an unmarked `FileInfo` hands
+    its positions on; and these, with the two stores that never mark (a fresh `FileInfo` from the import options,
+    `AddColumns` dropping positions that cannot carry the new fields), are ALL stores into the positions of a
+    `FileInfo`. -/
+theorem detected_positions_never_reach_the_writer :
+    (∀ ps s, writerPositions (applyPositionStore
+        ("loadViewFromFixedLengthTextFile", fixedAutoPositionsStore, "fileInfo.positionsDetected = true") (some ps) s) = none) ∧
+    (∀ ps s, writerPositions (applyPositionStore
+        ("SetDelimiterPositions", "f.DelimiterPositions = delimiterPositions", "f.positionsDetected = false") ps s) = ps) ∧
+    (∀ ps, writerPositions ⟨ps, false⟩ = ps) ∧
+    fileInfoPositionStores =
+      [("SetDefaultFileInfoAttributes", "f.DelimiterPositions = importOptions.DelimiterPositions", ""),
+       ("SetDelimiterPositions", "f.DelimiterPositions = delimiterPositions", "f.positionsDetected = false"),
+       ("loadViewFromFixedLengthTextFile", fixedAutoPositionsStore, "fileInfo.positionsDetected = true"),
+       ("AddColumns", "view.FileInfo.DelimiterPositions = nil", "")] ∧
+    exportOptionsOverrides = [("DelimiterPositions", "f.positionsDetected", "nil")] ∧
+    (("positionsDetected", "true", fixedAutoGuard, "before the records are read") ∈
+      (loaderStores.lookup "loadViewFromFixedLengthTextFile").getD []) := by
+  have hm : ("DelimiterPositions", "DelimiterPositions") ∈ exportOptionsMap := by decide
+  have ho : ("DelimiterPositions", "f.positionsDetected", "nil") ∈ exportOptionsOverrides := by decide
+  refine ⟨?_, ?_, ?_, by decide, by decide, by decide⟩
+  · intro ps s
+    simp [writerPositions, applyPositionStore, hm, ho]
+  · intro ps s
+    simp [writerPositions, applyPositionStore, hm]
+  · intro ps
+    simp [writerPositions, hm]
 
 /-- which options reach the go-text writers -/
 theorem gen_writer_options_eq_ref :
